@@ -259,7 +259,9 @@ func stringBytes(s *Stream) ([]byte, error) {
 			fallthrough
 		default:
 			// multi bytes character
-			if !utf8.FullRune(s.buf[cursor : len(s.buf)-1]) {
+			// only the bytes read so far count: behind them lies the NUL sentinel ( and stale
+			// data ), which would make a character cut by a chunk boundary look complete and invalid
+			if !utf8.FullRune(s.buf[cursor:s.length]) {
 				s.cursor = cursor
 				if s.read() {
 					_, cursor, p = s.stat()
